@@ -40,6 +40,10 @@ def LaidOut (m : AbstractModel) : Bool :=
         l.edgeGeometryDataOffset == (sectionOffset m i + lodVertexSize l).toUInt32
     | none => false
 
+/-- every LOD in use has at least one mesh -/
+def usedNonempty (m : AbstractModel) : Bool :=
+  (m.lods.take m.lodCount.toNat).all fun l => !l.meshes.isEmpty
+
 /-- re-pad the last mesh of a LOD; `ibase` = index words before the list -/
 def padLast : Nat → List AMesh → List AMesh
   | _, [] => []
